@@ -42,6 +42,8 @@ def classify(case, verdict, detail, eng_out):
         # several inner measures, one measure in the statement's result: the transpiler names every inner
         # measure after that single output measure
         return 'nested-expression:inner-measures-collapsed-onto-the-single-output-measure'
+    if nested and 'ifd' in ops and ops[-1] != 'ifd' and verdict in ('DISAGREE:value', 'DISAGREE:keys', 'DISAGREE:engine-error'):
+        return 'nested-expression:dataset-level-if-inside-another-operator'
     if verdict == 'DISAGREE:value':
         last_float = max([i for i, o in enumerate(ops) if o in FLOAT_OPS], default=-1)
         if last_float >= 0 and any(o in CMP_OPS or o in ('filter', 'mod', 'zip_mod', 'ceil', 'floor') for o in ops[last_float + 1:]):
